@@ -64,6 +64,15 @@ func populate(fs hackpadfs.FS, dir string, cs []child) {
 		if err := hackpadfs.MkdirAll(fs, dir, 0o755); err != nil {
 			panic(err)
 		}
+		// decoys: siblings whose names extend the listed directory's name; nothing of theirs belongs in its listing
+		for _, suffix := range []string{"x", ".x", "-"} {
+			if err := hackpadfs.MkdirAll(fs, dir+suffix+"/decoydir", 0o755); err != nil {
+				panic(err)
+			}
+			if err := hackpadfs.WriteFullFile(fs, dir+suffix+"/decoy", []byte{1}, 0o644); err != nil {
+				panic(err)
+			}
+		}
 	}
 	for _, c := range cs {
 		p := joinP(dir, c.name)
